@@ -20,7 +20,9 @@ tree <-> text relation unambiguous; it is a restriction of the input domain
 to what the property statements cover and is re-asserted on the rendered text
 by `assert_discipline`.
 """
+import random
 import re
+import string
 
 CMD = ['foo', 'bar', 'emph', 'textit', 'ref', 'cite', 'title', 'x', 'Question',
        'hspace*', 'color', 'frac', 'sqrt', 'caption', 'alpha', 'LaTeX']
@@ -43,11 +45,18 @@ MATH_CLOSE = {'$': '$', '$$': '$$', '\\(': '\\)', '\\[': '\\]'}
 # names that share a prefix with the structural keywords / signature table
 TRICKY = ['endnote', 'itemsep', 'begingroup', 'endgroup', 'itemindent', 'labelsep',
           'sectionmark', 'textbff', 'defn', 'inx', 'capx', 'leftarrow',
-          'rightarrow', 'bigskip', 'newcommandx', 'ends', 'items', 'begins']
+          'rightarrow', 'bigskip', 'newcommandx', 'ends', 'items', 'begins',
+          'section*', 'textbf*', 'label*', 'cup*', 'noindent*', 'item*', 'begin*',
+          'end*', 'newcommand*', 'def*']
 
 PLAIN = list('abcxyzABC0123456789') + ['hello', 'world', 'foo bar', 'lorem ipsum']
 PUNCT = list(',;:!?-+=<>"\'`@/|.&#^_~()') + ['é', '😂', 'ß', 'Ω']
-WS = [' ', '  ', '\n', '\n\n', '\t', ' \n ', '\n  ', '\n\n\n', ' \t ']
+# characters Python's str.isspace()/strip()/splitlines() treat as blank or as
+# line boundaries although the categoriser files them under Other: a change
+# that swaps an explicit ' \t' test for a str method shows only on these
+UNIWS = ['\xa0', '\x0b', '\x0c', '\x1c', '\x85', '\u2028', '\u3000']
+WS = [' ', '  ', '\n', '\n\n', '\t', ' \n ', '\n  ', '\n\n\n', ' \t ', '\r\n',
+      ' ', '\n', '\n  ', '  ', '\r', '\r\n  ']
 ESC = ['\\%', '\\$', '\\{', '\\}', '\\&', '\\#', '\\_', '\\ ', '\\,', '\\;',
        '\\!', '\\\\', '\\~', '\\^', '\\-', '\\/', '\\*', '\\1', '\\"']
 
@@ -81,6 +90,13 @@ class DocGen:
     def __init__(self, rng, cfg=None):
         self.r = rng
         self.cfg = cfg or Cfg()
+        # the document's own macros: names no other document of the process
+        # has used (so that anything the parser might remember about a name
+        # is still unknown at the first parse), used as ordinary commands
+        # before, inside and after their \newcommand
+        r2 = random.Random(rng.random())
+        self.macros = ['m' + ''.join(r2.choice(string.ascii_lowercase) for _ in range(7))
+                       for _ in range(2)]
 
     # ---- leaves -----------------------------------------------------------
     def textrun(self, ctx):
@@ -90,8 +106,10 @@ class DocGen:
             c = r.random()
             if c < .40:
                 parts.append(r.choice(PLAIN))
-            elif c < .58:
+            elif c < .56:
                 parts.append(r.choice(PUNCT))
+            elif c < .58:
+                parts.append(r.choice(UNIWS))
             elif c < .82:
                 parts.append(r.choice(WS))
             elif c < .93:
@@ -141,6 +159,8 @@ class DocGen:
         if k == 'cmd':
             name = r.choice(TRICKY) if cfg.tricky and r.random() < cfg.tricky \
                 else r.choice(cfg.cmd)
+            if cfg.tricky and r.random() < .08:
+                name = r.choice(self.macros)
             return ('C', name, self.args(d, ctx))
         if k == 'env':
             name = r.choice(cfg.env) if not ctx['math'] else r.choice(['cases', 'matrix', 'aligned'])
@@ -180,8 +200,29 @@ class DocGen:
                 [('C', 'begin', [('r', [('T', 'itemize')])]), ('T', ' '),
                  ('C', 'foo', [])],
                 [('C', 'end', [('r', [('T', 'itemize')])]), ('T', '.')],
+                'items', 'items',
             ])
-            args = [('r', [('C', r.choice(['beq', 'eeq', 'mycmd']), [])])]
+            if body == 'items':
+                # a list written out inside a definition: `\begin`/`\end` are
+                # plain commands there, but every `\item` still owns what
+                # follows it up to the next `\item`, the `\end` or the brace
+                lst = r.choice(LST)
+                body = []
+                bare = r.random() < .3
+                if not bare:
+                    body.append(('C', 'begin', [('r', [('T', lst)])]))
+                    if r.random() < .4:
+                        body.append(('T', r.choice(WS)))
+                for _ in range(r.randint(1, 3)):
+                    a = [('o', [('T', r.choice(['a', 'k', '1.']))])] if r.random() < .3 else []
+                    body.append(('I', a, self.seq(d + 2, inner)))
+                if not bare:
+                    body.append(('C', 'end', [('r', [('T', lst)])]))
+            defined = r.choice(['beq', 'eeq', 'mycmd'] + self.macros * 2)
+            if defined in self.macros and r.random() < .3:
+                # the macro applied to a group inside its own definition
+                body = [('C', defined, [('r', [('T', 'once more')])])] + body
+            args = [('r', [('C', defined, [])])]
             if r.random() < .5:
                 args.append(('o', [('T', r.choice('123'))]))
             args.append(('r', body))
@@ -292,7 +333,7 @@ def render1(n):
 
 # ------------------------------------------------------------- normalise ---
 
-_BR = re.compile(r'[ \t]*\n?[ \t]*[\[{]')
+_BR = re.compile(r'[ \t]*[\n\r]?[ \t]*[\[{]')   # CR is a line end of its own
 _NL = re.compile(r'[A-Za-z*]')
 NOHANG = set(ZERO_ARG) | set(ONE_ARG) | {'def'}
 
